@@ -34,6 +34,11 @@ fn build(tls: bool) -> Result<World, String> {
     cfg.pools.push(pt);
     let mut pq = PoolCfg::single("dbq", "uq", "x", 2, vec![cell.server(m3, "primary")]);
     pq.users[0].password = None;
+    // a second user of the same pool section, also authenticated through auth_query
+    let mut u2 = crate::pgcat::UserCfg::new("uq2", "x", 2);
+    u2.key = "1".into();
+    u2.password = None;
+    pq.users.push(u2);
     pq.set("auth_query", &format!("\"{}\"", AQ));
     pq.set("auth_query_user", "\"aq\"");
     pq.set("auth_query_password", "\"aqpw\"");
@@ -52,6 +57,14 @@ fn build(tls: bool) -> Result<World, String> {
             .lock()
             .unwrap()
             .push(AQ.replace("$1", "uq"));
+        ctl.shadow
+            .lock()
+            .unwrap()
+            .insert("uq2".into(), format!("md5{}", md5_hex(b"pwq2uq2")));
+        ctl.pooler_queries
+            .lock()
+            .unwrap()
+            .push(AQ.replace("$1", "uq2"));
     }
     cell.start_pgcat(&cfg, &StartOpts::default())
         .map_err(|e| format!("start: {:?}", e))?;
@@ -88,6 +101,11 @@ fn build_response(a: &Attempt, salt: &[u8; 4], prev_salt: &Option<[u8; 4]>) -> O
         }
         "hash_for_other_user" => {
             proto::password_message(&md5_password_response("someone_else", &a.password, salt))
+        }
+        // the complete, valid answer of ANOTHER user of the same auth_query pool
+        "valid_answer_of_other_user_of_pool" => {
+            let (ou, op) = if a.user == "uq" { ("uq2", "pwq2") } else { ("uq", "pwq") };
+            proto::password_message(&md5_password_response(ou, op, salt))
         }
         "replayed_salt" => match prev_salt {
             Some(ps) if ps != salt => {
@@ -249,6 +267,7 @@ pub fn run(tier: &str) -> i32 {
             ("u1", "db", "pw1", true),
             ("u2", "db2", "pw2", true),
             ("uq", "dbq", "pwq", true),
+            ("uq2", "dbq", "pwq2", true),
             (ADMIN_USER, "pgcat", ADMIN_PASS, true),
             (ADMIN_USER, "pgbouncer", ADMIN_PASS, true),
             ("u1", "db2", "pw1", false),
@@ -275,6 +294,7 @@ pub fn run(tier: &str) -> i32 {
             "query_instead",
             "sync_instead",
             "extra",
+            "valid_answer_of_other_user_of_pool",
         ]
         .iter()
         .map(|s| s.to_string())
@@ -344,6 +364,11 @@ pub fn run(tier: &str) -> i32 {
                 if let Ok(o) = attempt(&addr, &probe, &None, i) {
                     prev = o.salt;
                 }
+            }
+            if a.resp == "valid_answer_of_other_user_of_pool" && (a.user == "uq" || a.user == "uq2") {
+                let (ou, op) = if a.user == "uq" { ("uq2", "pwq2") } else { ("uq", "pwq") };
+                let warm = Attempt { resp: "correct".into(), user: ou.into(), password: op.into(), good: true, pipeline_after_startup: false, pipeline_after_response: false, ..a.clone() };
+                let _ = attempt(&addr, &warm, &None, i);
             }
             match attempt(&addr, a, &prev, i) {
                 Err(e) => rep.inconclusive(&format!("{}: {}", a.class, e)),
